@@ -129,6 +129,11 @@ fn bitvecs() -> Vec<(String, Vec<bool>)> {
     for len in [63usize, 64, 65, 1000, 4097, 70_000] {
         v.push((format!("every-3rd({len})"), (0..len).map(|i| i % 3 == 0).collect()));
     }
+    // sparse shapes at word granularity: runs of empty words of every parity before a non-empty one
+    v.push(("ones at 0 and 200".into(), (0..256).map(|i| i == 0 || i == 200).collect()));
+    for (period, phase) in [(2usize, 0usize), (2, 1), (3, 0), (3, 1), (3, 2), (4, 1), (4, 3), (5, 2), (7, 6)] {
+        v.push((format!("one-per-word-class(words = {phase} mod {period}, 40 words)"), (0..40 * 64).map(|i| (i / 64) % period == phase && i % 64 == (i / 64) % 61).collect()));
+    }
     v.push(("sparse(200000, ones 70000 apart)".into(), (0..200_000).map(|i| i % 70_000 == 5).collect()));
     v.push(("dense-with-hole(140000)".into(), (0..140_000).map(|i| !(1000..70_000).contains(&i)).collect()));
     v
@@ -168,8 +173,20 @@ fn main() {
         let ones = bits.iter().filter(|&&b| b).count();
         let zeros = n - ones;
         let mk = || -> BitVec { bits.iter().copied().collect() };
-        roundtrip!(&mut ctx, dir, "BitVec<Vec>", &cname, BitVec, mk(), |o, l| { o.len() == l.len() && (0..n).step_by(if n > 5000 { 17 } else { 1 }).all(|i| o.get(i) == l.get(i)) && o.count_ones() == l.count_ones() });
-        roundtrip!(&mut ctx, dir, "BitVec<Box>", &cname, BitVec<Box<[usize]>>, mk().into(), |o, l| { o.len() == l.len() && (0..n).step_by(if n > 5000 { 17 } else { 1 }).all(|i| o.get(i) == l.get(i)) });
+        // every read-only observation of a bit vector: random access, counting and the three iterators
+        macro_rules! bv_cmp {
+            ($o:ident, $l:ident) => {{
+                $o.len() == $l.len()
+                    && (0..n).step_by(if n > 5000 { 17 } else { 1 }).all(|i| $o.get(i) == $l.get(i))
+                    && $o.count_ones() == $l.count_ones()
+                    && $o.iter_ones().eq($l.iter_ones())
+                    && $o.iter_zeros().eq($l.iter_zeros())
+                    && $o.iter().eq($l.iter())
+                    && $o.iter_ones().eq((0..n).filter(|&i| bits[i]))
+            }};
+        }
+        roundtrip!(&mut ctx, dir, "BitVec<Vec>", &cname, BitVec, mk(), |o, l| { bv_cmp!(o, l) });
+        roundtrip!(&mut ctx, dir, "BitVec<Box>", &cname, BitVec<Box<[usize]>>, mk().into(), |o, l| { bv_cmp!(o, l) });
         roundtrip!(&mut ctx, dir, "AddNumBits<BitVec>", &cname, AddNumBits<BitVec>, mk().into(), |o, l| { o.len() == l.len() && o.num_ones() == l.num_ones() && (0..n).step_by(97).all(|i| o[i] == l[i]) });
         roundtrip!(&mut ctx, dir, "Rank9", &cname, Rank9, Rank9::new(mk()), |o, l| { rank_cmp!(o, l, n) });
         roundtrip!(&mut ctx, dir, "RankSmall<2,9>", &cname, RankSmall<2, 9>, rank_small![0; mk()], |o, l| { rank_cmp!(o, l, n) });
@@ -207,8 +224,8 @@ fn main() {
                         b
                     };
                     let cname = if len == 0 { format!("empty(width {w})") } else { format!("width={w} len={len}") };
-                    roundtrip!(&mut ctx, dir, &format!("BitFieldVec<{}>", stringify!($W)), &cname, BitFieldVec<$W>, mk(), |o, l| { o.len() == l.len() && o.bit_width() == l.bit_width() && (0..len).all(|i| o.get(i) == l.get(i)) });
-                    roundtrip!(&mut ctx, dir, &format!("BitFieldVec<{},Box>", stringify!($W)), &cname, BitFieldVec<$W, Box<[$W]>>, mk().into(), |o, l| { o.len() == l.len() && (0..len).all(|i| o.get(i) == l.get(i)) });
+                    roundtrip!(&mut ctx, dir, &format!("BitFieldVec<{}>", stringify!($W)), &cname, BitFieldVec<$W>, mk(), |o, l| { o.len() == l.len() && o.bit_width() == l.bit_width() && (0..len).all(|i| o.get(i) == l.get(i)) && o.iter().eq(l.iter()) && l.iter().eq(vals.iter().copied()) && (0..=len).step_by(3).all(|k| o.iter_from(k).eq(l.iter_from(k))) });
+                    roundtrip!(&mut ctx, dir, &format!("BitFieldVec<{},Box>", stringify!($W)), &cname, BitFieldVec<$W, Box<[$W]>>, mk().into(), |o, l| { o.len() == l.len() && (0..len).all(|i| o.get(i) == l.get(i)) && o.iter().eq(l.iter()) && l.iter().eq(vals.iter().copied()) });
                 }
             }
         };
